@@ -130,6 +130,23 @@ def handle : List String → String
           | .error e => "sat:" ++ showErr e ++ wb
       | ms => needReply ms
     | _, _, _ => "bad-request"
+  | ["predseq", p, vs, d] =>
+    match unhexChars p, (vs.splitOn ",").mapM unhexChars, parseDict d with
+    | some p, some vs, some d =>
+      let asked := vs ++ (splitOn ',' p).filterMap (fun piece => (matchPiece piece).map (·.2))
+      match missing d asked with
+      | [] =>
+        let P := wirePep d
+        match mkPredicate P p with
+        | .error e => "init:" ++ showErr e
+        | .ok pred =>
+          let wb := "\tconds=" ++ (if pred.isEmpty then "-" else
+            String.intercalate "," (pred.map fun cw => hexChars cw.1 ++ ":" ++ toString cw.2.1))
+          String.intercalate ";" ((satRun P pred vs).map fun
+            | .ok b => showBool b
+            | .error e => "sat:" ++ showErr e) ++ wb
+      | ms => needReply ms
+    | _, _, _ => "bad-request"
   | _ => "bad-request"
 
 def main : IO Unit := serve handle
